@@ -135,11 +135,21 @@ func GenAction(t *rapid.T, bias GenBias) Action {
 			}
 		case 11:
 			a.Kind = "neo_set"
-			a.S = rapid.SampledFrom([]string{"setGasPerBlock", "setRegisterPrice"}).Draw(t, "nm")
-			if a.S == "setGasPerBlock" {
+			a.S = rapid.SampledFrom([]string{"setGasPerBlock", "setRegisterPrice", "Oracle.setPrice", "Notary.setMaxNotValidBeforeDelta", "Management.setMinimumDeploymentFee"}).Draw(t, "nm")
+			switch a.S {
+			case "setGasPerBlock":
 				a.N = rapid.Int64Range(0, 10_0000_0000).Draw(t, "v")
-			} else {
+			case "setRegisterPrice":
 				a.N = rapid.Int64Range(1, 1500_0000_0000).Draw(t, "v")
+			case "Oracle.setPrice": // cached by the native Oracle; oracle_request pays it
+				a.Kind = "native_set"
+				a.N = rapid.SampledFrom([]int64{1, 1000, 5000_0000, 1_0000_0000, 7_0000_0000}).Draw(t, "v")
+			case "Notary.setMaxNotValidBeforeDelta": // cached by the native Notary; bounds NotValidBefore attributes
+				a.Kind = "native_set"
+				a.N = rapid.SampledFrom([]int64{1, 2, 3, 5, 20, 140}).Draw(t, "v")
+			default: // cached by Management; deployments pay at least this
+				a.Kind = "native_set"
+				a.N = rapid.SampledFrom([]int64{0, 1, 10_0000_0000, 30_0000_0000}).Draw(t, "v")
 			}
 		default:
 			a.Kind = "designate"
@@ -190,7 +200,7 @@ func GenAction(t *rapid.T, bias GenBias) Action {
 			}
 		}
 	case 2: // storage / contracts
-		k := rapid.IntRange(0, 15).Draw(t, "st")
+		k := rapid.IntRange(0, 16).Draw(t, "st")
 		a.A = rapid.IntRange(0, 4).Draw(t, "contract")
 		switch {
 		case k <= 3:
@@ -222,6 +232,10 @@ func GenAction(t *rapid.T, bias GenBias) Action {
 			a.B = rapid.IntRange(0, 1).Draw(t, "tok")
 			a.K = vt.Bytes{byte(genParty(t, "to"))}
 			a.N = rapid.Int64Range(0, 3).Draw(t, "amt")
+		case k == 15:
+			a.Kind = "oracle_request" // via a deployed contract: pays the Oracle price, adds a pending request
+			a.S = rapid.SampledFrom([]string{"a", "b", "c"}).Draw(t, "url")
+			a.V = GenStorageVal(t, "ud")
 		case k == 14:
 			a.Kind, a.S = "invoke", "find"
 			a.K = GenStorageKey(t, "k")
